@@ -18,6 +18,22 @@ Two ties to the real code:
      slowly (a write that cannot finish within the port's write timeout must raise, never lose bytes silently).
 If no pseudo-terminal can be opened the check still runs (a), the Lean side and the pyserial-argument part of
 `pty cfg`; the evidence then says `coverage.pty_available = false` and nothing is measured on a tty.
+
+Real time.  Part (b) runs real threads against real time-outs (the port's 1 s read / write timeouts, nxslib's 1 s reply and
+`stream_data` time-outs).  A busy machine must never look like a broken port: every experiment runs under `LatencyMonitor`;
+a verdict that rests on time (`depends_on_time`) counts only when nothing that was timed during the run — the monitor thread's
+5 ms sleeps, each paced sleep of a helper thread, all paced sleeps of one burst together — was later than LATE_LIMIT = 0.25 s;
+otherwise the run is repeated (pauses 0.5 / 1.5 / 3 s) and after four invalid runs the experiment is discarded and listed in
+`coverage.pty.discarded_for_timing`, not reported (`pty_case`).  Verdicts about the bytes themselves (altered, reordered,
+missing although every write returned and the line was found empty; settings read back) never depend on the clock and are
+never discarded; the sessions carry such a verdict of their own (`pty-session-bytes-altered`: all reads against all bytes sent,
+all bytes arrived against all writes).
+
+Errors.  The property sentence does not mention them.  The `e` / `E` ops of (a) inject a `serial.SerialException` into
+`Serial.read` / `Serial.in_waiting` and exercise exactly the `except serial.SerialException` branch of `SerialDevice._read`
+(model op `readError`).  With pyserial 3.5 on posix only `Serial.read` raises such an exception; `in_waiting` raises
+`OSError(EIO)` after a hang-up of the other end of a tty and `TypeError` on a closed port, which `_read` does not catch —
+`pty_hangup_probe` records that on every run (`coverage.pty.hangup_probe`), it is not judged.
 """
 import hashlib
 import os
@@ -69,6 +85,9 @@ class FakeSerial:
             self.on_inw()
         if self.err_inw:
             self.err_inw = False
+            # a SerialException subclass: exercises the handler of `_read` through the `in_waiting` half of the expression.
+            # pyserial 3.5 posix never raises one here (it raises OSError / TypeError, see pty_hangup_probe); its win32
+            # backend does (`SerialException("ClearCommError failed")`)
             raise serial.PortNotOpenError()
         return len(self.rx_wait)
 
@@ -217,6 +236,102 @@ def pad_expected(p, d):
 
 
 # =============================================================================================
+# scheduling-latency monitor for the real-time experiments
+# =============================================================================================
+
+LATE_LIMIT = 0.25            # seconds; nxslib's own reply / stream time-outs are 1 s, the port's write timeout is 1 s
+RETRY_PAUSES = (0.5, 1.5, 3.0)
+
+
+class LatencyMonitor:
+    """Was the machine fast enough for what a real-time experiment concluded?  A thread sleeps `period` (a timed wait) in a loop and records
+    by how much every sleep overran (`tick`); the helper threads of the experiments (paced writers / readers, the device
+    pump of the sessions) report by how much each of THEIR paced sleeps overran (`sleep`) and the sum of these over one
+    paced burst, e.g. one long frame written in 40 pieces (`burst`).  `worst()` is the largest of the three: the longest
+    time something that should have happened at a given moment happened late.  Pure scheduler measurements: time spent
+    blocked in a system call on the port is not included (that may be the code under test)."""
+
+    def __init__(self, period=0.005):
+        self.period = period
+        self.max = {"tick": 0.0, "sleep": 0.0, "burst": 0.0}
+        self.ticks = 0
+        self.late_sum = 0.0
+        self._stop = threading.Event()
+        self._last = None
+        self._th = None
+        self._lock = threading.Lock()
+
+    def _loop(self):
+        while not self._stop.is_set():
+            t = time.perf_counter()
+            if self._stop.wait(self.period):
+                return
+            now = time.perf_counter()
+            late = max(0.0, now - t - self.period)
+            self._last = now
+            self.ticks += 1
+            self.late_sum += late
+            if late > self.max["tick"]:
+                self.max["tick"] = late
+
+    def __enter__(self):
+        self.t0 = self._last = time.perf_counter()
+        self._th = threading.Thread(target=self._loop, daemon=True)
+        self._th.start()
+        return self
+
+    def __exit__(self, *a):
+        now = time.perf_counter()
+        # a monitor thread that has not come back from its sleep yet was itself kept waiting
+        self.max["tick"] = max(self.max["tick"], now - self._last - self.period)
+        self.wall = now - self.t0
+        self._stop.set()
+        self._th.join(1.0)
+        return False
+
+    def note(self, kind, late):
+        with self._lock:
+            if late > self.max[kind]:
+                self.max[kind] = late
+
+    def worst(self):
+        return max(self.max.values())
+
+    def report(self):
+        return {"max_lateness_s": round(self.worst(), 4), "monitor_thread_max_oversleep_s": round(self.max["tick"], 4),
+                "helper_thread_max_oversleep_s": round(self.max["sleep"], 4),
+                "helper_thread_max_lateness_over_one_paced_burst_s": round(self.max["burst"], 4),
+                "monitor_ticks": self.ticks, "monitor_mean_oversleep_s": round(self.late_sum / max(1, self.ticks), 5),
+                "limit_s": LATE_LIMIT}
+
+
+_MON = [None]       # the monitor of the experiment that is running (experiments run one at a time)
+
+
+def paced_sleep(dt):
+    """time.sleep(dt) of a helper thread; the overrun goes to the monitor.  Returns the overrun."""
+    t = time.perf_counter()
+    time.sleep(dt)
+    late = max(0.0, time.perf_counter() - t - dt)
+    m = _MON[0]
+    if m is not None:
+        m.note("sleep", late)
+    return late
+
+
+def note_burst(late):
+    m = _MON[0]
+    if m is not None:
+        m.note("burst", late)
+
+
+def timed(v):
+    """mark a verdict that rests on real time (a deadline, a time-out of the code under test, a measured duration)"""
+    v["depends_on_time"] = True
+    return v
+
+
+# =============================================================================================
 # (b) the real pseudo-terminal
 # =============================================================================================
 
@@ -259,6 +374,39 @@ class PtyPort:
         if r:
             out += os.read(self.master, 65536)
         return bytes(out)
+
+    def master_drain(self, n, done, hard_deadline, quiet=0.3):
+        """read from the master side until n bytes arrived, or until the writer has finished (`done` set) and the line then
+        stayed empty for `quiet` seconds over at least 6 polls that each actually ran and found nothing — a verdict about
+        what is in the line, not about how fast this thread was scheduled (the quiet time grows with the lateness the
+        monitor has seen).  Returns (bytes, why it stopped: 'complete' | 'line-empty-after-writer-finished' | 'deadline')"""
+        out = bytearray()
+        empty_since = None
+        empties = 0
+        while time.time() < hard_deadline:
+            r, _, _ = select.select([self.master], [], [], 0.02)
+            if r:
+                out += os.read(self.master, 65536)
+                empty_since = None
+                empties = 0
+                if len(out) >= n:
+                    # a little longer: nothing more must follow
+                    r, _, _ = select.select([self.master], [], [], 0.02)
+                    if r:
+                        out += os.read(self.master, 65536)
+                    return bytes(out), "complete"
+                continue
+            if done.is_set():
+                now = time.perf_counter()
+                if empty_since is None:
+                    empty_since = now
+                    empties = 0
+                empties += 1
+                m = _MON[0]
+                need = quiet + (4 * m.worst() if m is not None else 0.0)
+                if empties >= 6 and now - empty_since >= min(need, 5.0):
+                    return bytes(out), "line-empty-after-writer-finished"
+        return bytes(out), "deadline"
 
     def client_read(self, n, deadline, stats=None, idle_limit=0.5):
         """dev.read() until n bytes arrived (or the deadline); every single read is timed"""
@@ -316,24 +464,57 @@ def pty_rx(seed, size, pace_ms, stats=None):
     p = PtyPort()
     try:
         r = random.Random(f"C18-rx:{seed}:{size}:{pace_ms}")
+        wrote = threading.Event()
 
         def writer():
             i = 0
+            late = 0.0
             try:
                 while i < len(data):
                     k = r.choice([1, 2, 3, 16, 64, 255, 256, 1024, r.randrange(1, 2048)])
                     i += os.write(p.master, data[i:i + k])
                     if pace_ms:
-                        time.sleep(r.uniform(0, pace_ms) / 1000.0)
+                        late += paced_sleep(r.uniform(0, pace_ms) / 1000.0)
+                wrote.set()
             except OSError:
                 pass    # the experiment was abandoned and the pty closed
+            note_burst(late)
         th = threading.Thread(target=writer, daemon=True)
         th.start()
         got, slow = p.client_read(len(data), time.time() + 10 + size * pace_ms / 1000.0, stats)
         if slow is not None:
-            return {"key": "pty-read-blocks", "what": f"a read took {slow:.2f} s while a burst of {size} bytes was arriving",
-                    "expected": "< 0.5 s", "observed": f"{slow:.2f} s"}
+            return timed({"key": "pty-read-blocks", "what": f"a read took {slow:.2f} s while a burst of {size} bytes was arriving",
+                          "expected": "< 0.5 s", "observed": f"{slow:.2f} s"})
         th.join(5)
+        if got != data and data.startswith(got):
+            # short: either the deadline passed before the writer was through (time), or bytes are gone (not time): let the
+            # writer finish, then poll until the line has been found empty 6 times over ≥ 0.3 s
+            more = bytearray()
+            t_empty = None
+            n_empty = 0
+            end = time.time() + 30
+            while time.time() < end and len(got) + len(more) < len(data):
+                c = p.dev.read()
+                if c:
+                    more += c
+                    t_empty, n_empty = None, 0
+                    continue
+                if wrote.is_set():
+                    now = time.perf_counter()
+                    t_empty = now if t_empty is None else t_empty
+                    n_empty += 1
+                    if n_empty >= 6 and now - t_empty >= 0.3 + 4 * (_MON[0].worst() if _MON[0] else 0.0):
+                        break
+                time.sleep(0.01)
+            got += bytes(more)
+            if got == data:
+                if stats is not None:
+                    stats["rx_completed_after_deadline"] = stats.get("rx_completed_after_deadline", 0) + 1
+                return None
+            if not wrote.is_set():
+                return timed({"key": "pty-rx-incomplete", "what": f"burst of {size} bytes, writer pacing {pace_ms} ms: the helper thread "
+                              f"had not written everything after the deadline ({len(got)} bytes read so far, all as sent)",
+                              "expected": "writer finishes", "observed": f"{len(got)} of {size} bytes"})
         if got != data:
             return {"key": "pty-rx-altered", "what": f"bytes sent by the other end over the pty are not what reads return "
                     f"(burst of {size} bytes, writer pacing {pace_ms} ms)", "expected": "concatenation of reads = bytes sent",
@@ -355,9 +536,10 @@ def pty_tx(pad, seed, size, stats=None):
     try:
         p.dev.write_padding = pad
         box = {}
+        done = threading.Event()
 
         def reader():
-            box["got"] = p.master_read(len(want), time.time() + 10)
+            box["got"], box["why"] = p.master_drain(len(want), done, time.time() + 60)
         th = threading.Thread(target=reader, daemon=True)
         th.start()
         err = None
@@ -365,18 +547,30 @@ def pty_tx(pad, seed, size, stats=None):
             for d in parts:
                 p.dev.write(d)
         except Exception as e:
-            err = f"{type(e).__name__}: {e}"
-        th.join(15)
+            err = e
+        done.set()
+        th.join(70)
         got = box.get("got", b"")
+        why = box.get("why", "reader-thread-did-not-finish")
         if stats is not None:
             stats["tx_bytes"] = stats.get("tx_bytes", 0) + len(want)
-        if err:
-            return {"key": "pty-write-raises", "what": f"write of {[len(d) for d in parts]} bytes with padding {pad} raised",
-                    "expected": "no exception", "observed": err}
+        if err is not None:
+            v = {"key": "pty-write-raises", "what": f"write of {[len(d) for d in parts]} bytes with padding {pad} raised "
+                 "(a helper thread takes the bytes from the other end as fast as it can)",
+                 "expected": "no exception", "observed": f"{type(err).__name__}: {err}"}
+            # a write TIME-OUT means the reader did not take the bytes within the port's write timeout: that depends on
+            # the reader thread having been scheduled
+            return timed(v) if "Timeout" in type(err).__name__ else v
         if got != want:
-            return {"key": "pty-tx-altered", "what": f"bytes written by the client (writes of {[len(d) for d in parts]} bytes, "
-                    f"padding {pad}) do not arrive padded and otherwise unchanged at the other end of the pty",
-                    "expected": "each write followed by zeros up to a multiple of the padding", "observed": diff_report(want, got)}
+            v = {"key": "pty-tx-altered", "what": f"bytes written by the client (writes of {[len(d) for d in parts]} bytes, "
+                 f"padding {pad}) do not arrive padded and otherwise unchanged at the other end of the pty; every write had "
+                 f"returned normally, the reader stopped because: {why}",
+                 "expected": "each write followed by zeros up to a multiple of the padding", "observed": diff_report(want, got)}
+            # altered / reordered / too many bytes, or short with the line verified empty after the writes returned: facts
+            # about the bytes.  Short because the reader ran out of time: depends on time.
+            if want.startswith(got) and why not in ("complete", "line-empty-after-writer-finished"):
+                return timed(v)
+            return v
         return None
     finally:
         p.close()
@@ -428,8 +622,12 @@ def pty_txp(pad, seed, size, rate, stats=None):
         stop = threading.Event()
 
         def reader():
+            # takes `rate` bytes per second in 10 ms steps; by how much the steps ran late (all of them together, while the
+            # client's write was in progress) goes to the monitor: a reader that is scheduled late is a slower line than asked for
             q = max(1, rate // 100)
             last = time.time()
+            late = 0.0
+            empties = 0
             try:
                 while not stop.is_set():
                     t = time.perf_counter()
@@ -437,13 +635,22 @@ def pty_txp(pad, seed, size, rate, stats=None):
                     if r:
                         got.extend(os.read(p.master, q))
                         last = time.time()
-                    elif done.is_set() and time.time() - last > 0.15:
-                        return
+                        empties = 0
+                    elif done.is_set():
+                        # the write has returned: the line found empty three times in a row, ≥ 0.15 s after the last byte
+                        empties += 1
+                        if empties >= 3 and time.time() - last > 0.15:
+                            finished.set()
+                            return
                     dt = 0.01 - (time.perf_counter() - t)
                     if dt > 0:
-                        time.sleep(dt)
+                        x = paced_sleep(dt)
+                        if not done.is_set():
+                            late += x
+                            note_burst(late)
             except OSError:
                 pass
+        finished = threading.Event()
         th = threading.Thread(target=reader, daemon=True)
         th.start()
         err = None
@@ -454,9 +661,14 @@ def pty_txp(pad, seed, size, rate, stats=None):
             err = e
         took = time.time() - t0
         done.set()
-        th.join(len(want) / max(1, rate) + 5)
+        th.join(len(want) / max(1, rate) + 30)
         stop.set()
+        th.join(2)
         got = bytes(got)
+        if not finished.is_set():
+            return timed({"key": "pty-txp-reader-stalled", "what": f"the helper thread that takes {rate} bytes/s from the other end did not "
+                          f"get through {len(want)} bytes in {len(want) / max(1, rate) + 30:.0f} s", "expected": "reader finishes",
+                          "observed": f"{len(got)} bytes taken"})
         must_complete = len(want) <= 1024 or (wt is None) or (wt > 0 and len(want) <= rate * wt / 2)
         if stats is not None:
             stats["tx_bytes"] = stats.get("tx_bytes", 0) + len(got)
@@ -472,9 +684,11 @@ def pty_txp(pad, seed, size, rate, stats=None):
             return {"key": "pty-tx-altered", "what": f"write of {size} bytes (padding {pad}) at {rate} bytes/s raised {name}; what arrived before "
                     "is not a prefix of what was written", "expected": "prefix", "observed": diff_report(want, got)}
         if must_complete or "Timeout" not in name:
-            return {"key": "pty-write-raises", "what": f"write of {size} bytes (padding {pad}) while the other end takes {rate} bytes/s raised "
-                    f"after {took:.2f} s with {len(got)} bytes delivered (port write timeout {wt} s)", "expected": "no exception",
-                    "observed": f"{name}: {err}"}
+            v = {"key": "pty-write-raises", "what": f"write of {size} bytes (padding {pad}) while the other end takes {rate} bytes/s raised "
+                 f"after {took:.2f} s with {len(got)} bytes delivered (port write timeout {wt} s)", "expected": "no exception",
+                 "observed": f"{name}: {err}"}
+            # a write time-out where the paced reader should have been fast enough: was the reader thread scheduled on time?
+            return timed(v) if "Timeout" in name else v
         if stats is not None:
             stats.setdefault("write_timeouts_observed", []).append(
                 {"size": len(want), "rate_Bps": rate, "write_timeout_s": wt, "raised": name, "after_s": round(took, 2),
@@ -592,7 +806,7 @@ def pty_bytes(stats=None):
             os.write(p.master, one)
             got, slow = p.client_read(1, time.time() + 1.5)
             if slow is not None:
-                return {"key": "pty-read-blocks", "what": f"a read took {slow:.2f} s", "expected": "< 0.5 s", "observed": f"{slow:.2f} s"}
+                return timed({"key": "pty-read-blocks", "what": f"a read took {slow:.2f} s", "expected": "< 0.5 s", "observed": f"{slow:.2f} s"})
             if got != one:
                 return {"key": "pty-byte-altered", "what": f"byte 0x{b:02x} sent by the other end", "expected": hexs(one), "observed": hexs(got)}
             p.dev.write(one)
@@ -641,9 +855,9 @@ def pty_idle(n, stats=None):
                     p.dev.read()
                     again.append(time.perf_counter() - t)
                 if min(again) > limit:
-                    return {"key": "pty-idle-read-blocks", "what": f"read number {i} on an idle line took {dt:.2f} s, the next two "
-                            f"{again[0]:.2f} s and {again[1]:.2f} s (port timeout {p.timeout} s)",
-                            "expected": f"empty result in < {limit} s", "observed": f"{dt:.2f} s"}
+                    return timed({"key": "pty-idle-read-blocks", "what": f"read number {i} on an idle line took {dt:.2f} s, the next two "
+                                  f"{again[0]:.2f} s and {again[1]:.2f} s (port timeout {p.timeout} s)",
+                                  "expected": f"empty result in < {limit} s", "observed": f"{dt:.2f} s"})
                 if stats is not None:
                     stats["idle_slow_unconfirmed"] = stats.get("idle_slow_unconfirmed", 0) + 1
         # and idle again after traffic
@@ -655,9 +869,11 @@ def pty_idle(n, stats=None):
         worst = max(worst, dt)
         if got != b"\x55\x00\x11":
             return {"key": "pty-byte-altered", "what": "bytes 55 00 11 sent by the other end", "expected": "550011", "observed": hexs(got)}
-        if c or dt > limit:
-            return {"key": "pty-idle-read-blocks" if dt > limit else "pty-idle-read-nonempty", "what": "read after the line went idle again",
-                    "expected": f"empty in < {limit} s", "observed": f"{hexs(c)} in {dt:.2f} s"}
+        if c:
+            return {"key": "pty-idle-read-nonempty", "what": "read after the line went idle again", "expected": "empty", "observed": hexs(c)}
+        if dt > limit:
+            return timed({"key": "pty-idle-read-blocks", "what": "read after the line went idle again",
+                          "expected": f"empty in < {limit} s", "observed": f"empty in {dt:.2f} s"})
         if stats is not None:
             stats["idle_reads"] = stats.get("idle_reads", 0) + n + 1
             stats["idle_max_s"] = round(max(stats.get("idle_max_s", 0.0), worst), 6)
@@ -825,143 +1041,295 @@ def memory_session(rxpadding, nframes, plan=None):
 
 
 def pty_session_once(rxpadding, nframes, seed, stats=None, plan=None):
+    """one client session over the pty.  Returns a dict: `res` = (description, samples, notes) or None, `exc` = what the session
+    raised, `srv`, `pump_err`, and `raw` = a verdict about the BYTES alone, which does not depend on time: every byte the client's reads
+    returned against every byte the device side wrote to the other end, and every byte that arrived at the other end against the
+    client's writes (each padded to the write padding in force)."""
     srv = DevServer(rxpadding, nframes, plan)
     p = PtyPort()
     stop = threading.Event()
     r = random.Random(f"C18-session:{rxpadding}:{nframes}:{seed}")
     pump_err = []
+    dev_sent = bytearray()
 
     def pump():
         try:
             while not stop.is_set():
+                t = time.perf_counter()
                 rd, _, _ = select.select([p.master], [], [], 0.002)
                 if rd:
                     srv.feed(os.read(p.master, 65536))
+                elif _MON[0] is not None:
+                    _MON[0].note("sleep", max(0.0, time.perf_counter() - t - 0.002))
                 out = srv.take()
                 i = 0
+                late = 0.0
                 big = len(out) > 2048
                 while i < len(out):
                     if big:
                         # a long frame goes out in paced pieces: the client polls an idle line in the middle of it
                         k = r.choice([300, 700, 1500, 1500, 4000])
-                        i += os.write(p.master, out[i:i + k])
-                        time.sleep(r.uniform(0.001, 0.004))
+                        n = os.write(p.master, out[i:i + k])
+                        dev_sent.extend(out[i:i + n])
+                        i += n
+                        late += paced_sleep(r.uniform(0.001, 0.004))
                         continue
                     k = r.choice([1, 3, 4, 7, 16, 64, len(out)])
-                    i += os.write(p.master, out[i:i + k])
+                    n = os.write(p.master, out[i:i + k])
+                    dev_sent.extend(out[i:i + n])
+                    i += n
                     if r.random() < 0.2:
-                        time.sleep(r.uniform(0, 0.002))
+                        late += paced_sleep(r.uniform(0, 0.002))
+                if out:
+                    note_burst(late)      # by how much this frame / reply went out later than paced, all pieces together
         except Exception as e:  # closed fd at shutdown etc.
             if not stop.is_set():
                 pump_err.append(f"{type(e).__name__}: {e}")
     th = threading.Thread(target=pump, daemon=True)
     th.start()
+    out = {"res": None, "exc": None, "srv": srv, "pump_err": pump_err, "raw": None}
     try:
-        # count the OS chunking the client sees
+        # every byte the client reads, and the OS chunking it sees
         orig = p.dev._read
         sizes = []
+        got_all = bytearray()
 
         def counted():
             c = orig()
             if c:
                 sizes.append(len(c))
+                got_all.extend(c)
             return c
         p.dev._read = counted
         p.dev._fread = counted
-        res = session_script(p.dev, nframes)
+        # every write of the client with the padding in force
+        orig_write = p.dev.write
+        writes = []
+
+        def noted_write(data):
+            writes.append((p.dev.write_padding, bytes(data)))
+            return orig_write(data)
+        p.dev.write = noted_write
+        try:
+            out["res"] = session_script(p.dev, nframes)
+        except Exception as e:
+            out["exc"] = f"{type(e).__name__}: {e}"
+        stop.set()
+        th.join(5)
+        # what is still on its way to the other end: until the line was found empty 6 times over ≥ 0.3 s
+        t_empty = None
+        n_empty = 0
+        end = time.time() + 10
+        while time.time() < end and not th.is_alive():
+            rd, _, _ = select.select([p.master], [], [], 0.02)
+            if rd:
+                try:
+                    srv.seen += os.read(p.master, 65536)
+                except OSError:
+                    break
+                t_empty, n_empty = None, 0
+                continue
+            now = time.perf_counter()
+            t_empty = now if t_empty is None else t_empty
+            n_empty += 1
+            if n_empty >= 6 and now - t_empty >= 0.3:
+                break
+        want_tx = b"".join(pad_expected(pad, d) for pad, d in writes)
+        seen = bytes(srv.seen)
+        if not bytes(dev_sent).startswith(bytes(got_all)):
+            out["raw"] = {"key": "pty-session-bytes-altered", "what": "session over the pty: the concatenation of everything the client's reads "
+                          f"returned ({len(got_all)} bytes) is not a prefix of what the device side wrote to the other end ({len(dev_sent)} bytes)",
+                          "expected": "reads = a prefix of the bytes sent", "observed": diff_report(bytes(dev_sent[:len(got_all)]), bytes(got_all))}
+        elif not want_tx.startswith(seen) or (out["exc"] is None and seen != want_tx and not th.is_alive()):
+            out["raw"] = {"key": "pty-session-bytes-altered", "what": "session over the pty: what arrived at the other end is not the client's "
+                          f"writes ({len(writes)} of them), each followed by zeros up to the write padding in force; every write had returned normally",
+                          "expected": "arrived = the padded writes, in order", "observed": diff_report(want_tx, seen)}
         if stats is not None:
             stats["session_nonempty_reads"] = stats.get("session_nonempty_reads", 0) + len(sizes)
             stats["session_read_sizes"] = sorted(set(sizes))[:40]
             stats["session_bytes_from_client"] = len(srv.seen)
+            stats["session_bytes_compared_raw"] = stats.get("session_bytes_compared_raw", 0) + len(got_all) + len(seen)
             if plan:
                 stats["session_longest_device_frame"] = max([stats.get("session_longest_device_frame", 0)] + srv.sent_lengths)
                 stats["session_long_device_frames"] = stats.get("session_long_device_frames", 0) + sum(1 for x in srv.sent_lengths if x > 4096)
-        return res, srv, pump_err
+        return out
     finally:
         stop.set()
         th.join(2)
         p.close()
 
 
+_MEM_CACHE = {}
+
+
+def _memref_child():
+    """(runs in a fresh interpreter) the session over the ideal in-memory link; the result goes to stdout, pickled"""
+    import json
+    import pickle
+    import sys
+    rxpadding, nframes, plan = json.loads(sys.argv[1])
+    (desc, samples, notes), srv = memory_session(rxpadding, nframes, plan)
+    sys.stdout.buffer.write(pickle.dumps({"res": (desc, samples, notes), "nreq": srv.dev.nreq, "en": srv.dev.en, "div": srv.dev.div}))
+    sys.stdout.buffer.flush()
+
+
+class MemoryReference:
+    """the same session over an ideal in-memory link, run in a process of its own while the pty session runs (its threads must not
+    share an interpreter lock with the threads being timed), once per experiment; re-runs of the experiment reuse it"""
+
+    def __init__(self, rxpadding, nframes, plan):
+        import json
+        import subprocess
+        import sys
+        self.key = (rxpadding, nframes, tuple(plan) if plan else None)
+        self.nframes = nframes
+        self.proc = None
+        if self.key not in _MEM_CACHE:
+            here = os.path.dirname(os.path.dirname(os.path.abspath(__file__)))
+            code = f"import sys; sys.path.insert(0, {here!r}); import common; import props.C18 as m; m._memref_child()"
+            self.proc = subprocess.Popen([sys.executable, "-c", code, json.dumps([rxpadding, nframes, list(plan) if plan else None])],
+                                         stdout=subprocess.PIPE, stderr=subprocess.PIPE)
+
+    def result(self):
+        """{'res': (description, samples, notes), 'nreq', 'en', 'div'} or {'failed': why}"""
+        import pickle
+        import subprocess
+        if self.proc is None:
+            return _MEM_CACHE[self.key]
+        try:
+            out, err = self.proc.communicate(timeout=180)
+        except subprocess.TimeoutExpired:
+            self.proc.kill()
+            self.proc.communicate()
+            return {"failed": "did not finish within 180 s"}
+        if self.proc.returncode != 0:
+            return {"failed": f"exit {self.proc.returncode}: {err.decode(errors='replace')[-300:]}"}
+        box = pickle.loads(out)
+        if ("frames", self.nframes) not in box["res"][2]:
+            # not kept for the re-runs: it ran into one of the client's time-outs itself
+            box["failed"] = f"the session over the in-memory link delivered fewer frames than the device sent: {box['res'][2]!r}"
+            return box
+        _MEM_CACHE.clear()
+        _MEM_CACHE[self.key] = box
+        return box
+
+
 def pty_session(rxpadding, nframes, seed, stats=None, plan=None):
-    """a full client session over the pty vs over the in-memory link, see pty_session_try.  The session runs in real time
-    with the client's 1 s reply timeouts: when the machine is so loaded that the device-side helper thread is not scheduled
-    for that long, the client re-sends a request and takes the late reply for the answer to the next one (seen once under a
-    load average of 37: channel 5 described with channel 4's reply) — that is the link being slow, not altering bytes.  A
-    difference is therefore confirmed by running the session a second time; a port that alters, loses or reorders bytes does
-    so again.  The unconfirmed first result is kept in the evidence (`session_unconfirmed`)."""
-    v = pty_session_try(rxpadding, nframes, seed, stats, plan)
-    if v is None:
-        return None
-    v2 = pty_session_try(rxpadding, nframes, seed, stats, plan)
-    if v2 is None:
-        if stats is not None:
-            stats.setdefault("session_unconfirmed", []).append({"key": v.get("key"), "requests_seen_by_device": v.get("requests_seen_by_device")})
-        return None
-    v2["first_attempt"] = {"key": v.get("key"), "observed": str(v.get("observed"))[:300]}
-    return v2
-
-
-def pty_session_try(rxpadding, nframes, seed, stats=None, plan=None):
     """a full client session over the pty vs over the in-memory link; with `plan` the device's stream frames have
-    the listed lengths on the wire (the in-memory link hands each over in one read, the pty in paced pieces)"""
-    box = {}
+    the listed lengths on the wire (the in-memory link hands each over in one read, the pty in paced pieces).
+
+    Two kinds of verdict.  About the bytes (`pty-session-bytes-altered`): reads against bytes sent, bytes arrived against the
+    writes — no clock involved.  About the session's outcome (description, ACKs, number of frames, samples, an exception): the
+    client runs with nxslib's real 1 s reply and 1 s `stream_data` time-outs against a device-side helper thread that answers
+    and writes long frames in `time.sleep`-paced pieces.  On a machine so loaded that this thread (or the client's receive
+    thread) is not scheduled for that long the client gives up on a request, or re-sends it and takes the late reply for the
+    answer to the next one — the link was slow, it altered nothing.  These verdicts are marked `depends_on_time`; `pty_case`
+    accepts them only from a run during which the scheduling-latency monitor saw nothing later than LATE_LIMIT."""
     if plan:
         nframes = len(plan)
-
-    def mem():
-        try:
-            box["mem"] = memory_session(rxpadding, nframes, plan)
-        except Exception as e:
-            box["mem_exc"] = f"{type(e).__name__}: {e}"
-    mt = threading.Thread(target=mem, daemon=True)
-    mt.start()
-    last = None
-    for attempt in (1, 2):
-        try:
-            (desc, samples, notes), srv, perr = pty_session_once(rxpadding, nframes, seed, stats, plan)
-            last = None
-            break
-        except Exception as e:
-            last = f"{type(e).__name__}: {e}"
-            if stats is not None:
-                stats["session_retries"] = stats.get("session_retries", 0) + 1
-    mt.join(60)
-    if last is not None:
-        return {"key": "pty-session-fails", "what": f"client session over the pty (device rxpadding {rxpadding}) raised, twice",
-                "expected": "session completes", "observed": last}
-    if "mem" not in box:
-        return {"key": "memory-session-fails", "what": "the reference session over the in-memory link failed",
-                "expected": "session completes", "observed": box.get("mem_exc", "timeout")}
-    (mdesc, msamples, mnotes), msrv = box["mem"]
+    ref = MemoryReference(rxpadding, nframes, plan)
+    try:
+        o = pty_session_once(rxpadding, nframes, seed, stats, plan)
+    finally:
+        box = ref.result()
+    srv = o["srv"]
+    if o["raw"]:
+        if o["exc"]:
+            o["raw"]["session_raised"] = o["exc"]
+        return o["raw"]
+    if o["exc"] is not None:
+        return timed({"key": "pty-session-fails", "what": f"client session over the pty (device rxpadding {rxpadding}) raised; the bytes "
+                      "that went over the pty in both directions were unaltered", "expected": "session completes", "observed": o["exc"],
+                      "requests_seen_by_device": srv.dev.nreq})
+    if "failed" in box:
+        return timed({"key": "memory-session-fails", "what": "the reference session over the in-memory link failed",
+                      "expected": "session completes", "observed": box["failed"]})
+    desc, samples, notes = o["res"]
+    mdesc, msamples, mnotes = box["res"]
     want_desc = (len(SESSION_CHANS), 3, rxpadding,
                  tuple((i, c["type"], c["vdim"], c["name"], False, 0, c["mlen"]) for i, c in enumerate(SESSION_CHANS)))
-    reqs = {"pty": srv.dev.nreq, "ideal_link": msrv.dev.nreq}
+    reqs = {"pty": srv.dev.nreq, "ideal_link": box["nreq"]}
     if desc != mdesc or desc != want_desc:
-        return {"key": "pty-session-description", "what": "device description read over the pty differs from the one read over the "
-                "ideal link / from the device's configuration", "expected": repr(mdesc), "observed": repr(desc), "device": repr(want_desc),
-                "requests_seen_by_device": reqs}
+        return timed({"key": "pty-session-description", "what": "device description read over the pty differs from the one read over the "
+                      "ideal link / from the device's configuration", "expected": repr(mdesc), "observed": repr(desc), "device": repr(want_desc),
+                      "requests_seen_by_device": reqs})
     if notes != mnotes:
-        return {"key": "pty-session-acks", "what": "start/stop outcome or number of stream frames the client received differs between the pty and "
-                "the ideal link" + (f"; lengths of the device's stream frames on the wire: {srv.sent_lengths}" if plan else ""),
-                "expected": repr(mnotes), "observed": repr(notes)}
+        return timed({"key": "pty-session-acks", "what": "start/stop outcome or number of stream frames the client received differs between the pty and "
+                      "the ideal link" + (f"; lengths of the device's stream frames on the wire: {srv.sent_lengths}" if plan else ""),
+                      "expected": repr(mnotes), "observed": repr(notes)})
     if samples != msamples:
         i = first_diff(samples, msamples)
-        return {"key": "pty-session-samples", "what": f"decoded stream samples differ from the ideal link (first at sample {i} of "
-                f"{len(msamples)})", "expected": repr(msamples[i:i + 2]), "observed": repr(samples[i:i + 2])}
+        return timed({"key": "pty-session-samples", "what": f"decoded stream samples differ from the ideal link (first at sample {i} of "
+                      f"{len(msamples)})", "expected": repr(msamples[i:i + 2]), "observed": repr(samples[i:i + 2])})
     if not samples or ("frames", nframes) not in notes:
-        return {"key": "pty-session-empty", "what": "the session delivered fewer stream frames than the device sent",
-                "expected": nframes, "observed": repr(notes)}
-    if (srv.dev.en, srv.dev.div) != (msrv.dev.en, msrv.dev.div):
-        return {"key": "pty-session-device-state", "what": "device state after the session differs", "expected": repr((msrv.dev.en, msrv.dev.div)),
-                "observed": repr((srv.dev.en, srv.dev.div))}
+        return timed({"key": "pty-session-empty", "what": "the session delivered fewer stream frames than the device sent",
+                      "expected": nframes, "observed": repr(notes)})
+    if (srv.dev.en, srv.dev.div) != (box["en"], box["div"]):
+        return timed({"key": "pty-session-device-state", "what": "device state after the session differs", "expected": repr((box["en"], box["div"])),
+                      "observed": repr((srv.dev.en, srv.dev.div))})
     if stats is not None:
         stats["session_samples"] = stats.get("session_samples", 0) + len(samples)
         stats["sessions"] = stats.get("sessions", 0) + 1
     return None
 
 
-def pty_case(line, stats=None):
+def pty_hangup_probe():
+    """RECORDED, NOT JUDGED (the property sentence says nothing about errors): what the real stack does when the other end of
+    the line goes away, and on a closed port.  pyserial 3.5 (posix) raises `SerialException` only out of `Serial.read`
+    ("device reports readiness to read but returned no data", a failing `os.read`/`select`); `Serial.in_waiting` is a bare
+    `ioctl(TIOCINQ)` — after a hang-up it raises `OSError(EIO)`, on a closed port `TypeError` (fd is None) — and since `_read`
+    evaluates `in_waiting` first and catches `serial.SerialException` only, these leave `SerialDevice.read()` as exceptions.
+    The model's `readError` (and the K cases `e` / `E`) are about the `except serial.SerialException` branch alone."""
+    import pty
+    from nxslib.intf.serial import SerialDevice
+
+    def call(f):
+        try:
+            r = f()
+            return "returned " + (hexs(r) if isinstance(r, (bytes, bytearray)) else repr(r))
+        except BaseException as e:     # noqa: recorded as seen
+            import serial
+            kind = "a serial.SerialException" if isinstance(e, serial.SerialException) else "NOT a serial.SerialException"
+            return f"raised {type(e).__name__} ({kind})" + (f" errno {e.errno}" if isinstance(e, OSError) and e.errno is not None else "")
+    m, sl = pty.openpty()
+    out = {}
+    dev = None
+    try:
+        dev = SerialDevice(os.ttyname(sl))
+        os.close(sl)
+        sl = None
+        os.write(m, b"abc")
+        end = time.time() + 2
+        got = b""
+        while len(got) < 3 and time.time() < end:
+            got += dev.read()
+        out["read_before_hangup"] = "returned " + hexs(got)
+        os.close(m)        # the other end goes away (USB adapter unplugged)
+        m = None
+        time.sleep(0.02)
+        out["read_after_hangup"] = call(dev.read)
+        out["second_read_after_hangup"] = call(dev.read)
+        out["write_after_hangup"] = call(lambda: dev.write(b"x"))
+        dev._ser.close()
+        out["read_on_closed_port"] = call(dev.read)
+        out["caught_by_SerialDevice._read"] = "only serial.SerialException (→ b''); everything else above propagates to the caller"
+        out["judged"] = False
+    finally:
+        for fd in (m, sl):
+            if fd is not None:
+                try:
+                    os.close(fd)
+                except OSError:
+                    pass
+        try:
+            if dev is not None and dev._ser:
+                dev._ser.close()
+        except Exception:
+            pass
+    return out
+
+
+def pty_case_once(line, stats=None):
     t = line.split(" ")
     if t[1] == "rx":
         return pty_rx(int(t[2]), int(t[3]), int(t[4]), stats)
@@ -979,18 +1347,72 @@ def pty_case(line, stats=None):
     if t[1] == "txsweep":
         return pty_txsweep(int(t[2]), int(t[3]), int(t[4]), int(t[5]), stats)
     if t[1] == "txp":
-        v = pty_txp(int(t[2]), int(t[3]), int(t[4]), int(t[5]), stats)
-        if v and v.get("key") == "pty-write-raises" and "Timeout" in str(v.get("observed")):
-            # a write timeout where the paced reader should have been fast enough: the reader thread may not have been
-            # scheduled (loaded machine); a port that cannot write does so again
-            v2 = pty_txp(int(t[2]), int(t[3]), int(t[4]), int(t[5]), stats)
-            if v2 is None and stats is not None:
-                stats["txp_unconfirmed_timeouts"] = stats.get("txp_unconfirmed_timeouts", 0) + 1
-            return v2
-        return v
+        return pty_txp(int(t[2]), int(t[3]), int(t[4]), int(t[5]), stats)
     if t[1] == "cfg":
         return pty_cfg(stats)
     raise ValueError(line)
+
+
+def pty_case(line, stats=None):
+    """one pty experiment, run under the scheduling-latency monitor.
+
+    A verdict that does not rest on real time (bytes altered, reordered or missing although every write returned and the line
+    was found empty; wrong settings read back; an exception other than a time-out) is returned at once, whatever the
+    machine was doing.  A verdict marked `depends_on_time` (a read that took too long, a write time-out against a paced reader, every
+    outcome of a client session with nxslib's 1 s time-outs) is a measurement only if, while it was taken, nothing that had
+    been timed — the monitor thread's 5 ms sleeps, every paced sleep of the helper threads, all paced sleeps of one burst
+    together — was later than LATE_LIMIT (0.25 s, a quarter of the time-outs involved).  Otherwise the run is INVALID: it is
+    repeated after a pause of 0.5, 1.5, 3 s; when four runs in a row were invalid the experiment is DISCARDED — listed in the
+    evidence (`coverage.pty.discarded_for_timing`, with what each run saw and how late things were) and not reported.  A
+    time-dependent difference seen with clean timing is confirmed by one more run (as in round 3: a port that blocks or loses
+    frames does so again), reported when a second clean run shows a difference too, and listed under `unconfirmed` when the next
+    run passes."""
+    hits = []       # time-dependent differences seen with clean timing
+    dirty = []      # … seen while the machine was late
+    while True:
+        mon = LatencyMonitor()
+        _MON[0] = mon
+        try:
+            with mon:
+                v = pty_case_once(line, stats)
+        finally:
+            _MON[0] = None
+        late = mon.worst()
+        if stats is not None:
+            tm = stats.setdefault("timing", {"limit_s": LATE_LIMIT, "max_lateness_s": 0.0, "experiments_later_than_limit": 0,
+                                             "invalid_runs_repeated": 0, "unconfirmed": []})
+            tm["max_lateness_s"] = round(max(tm["max_lateness_s"], late), 4)
+            if late > LATE_LIMIT:
+                tm["experiments_later_than_limit"] += 1
+        if v is None:
+            if stats is not None:
+                stats["timing"]["invalid_runs_repeated"] += len(dirty)
+                if hits:
+                    stats["timing"]["unconfirmed"].append({"case": line, "key": hits[0].get("key"), "observed": str(hits[0].get("observed"))[:300]})
+            return None
+        if not v.pop("depends_on_time", False):
+            v["timing_during_the_run"] = mon.report()
+            v["depends_on_time"] = False
+            return v
+        v["timing_during_the_run"] = mon.report()
+        if late <= LATE_LIMIT:
+            hits.append(v)
+            if len(hits) >= 2:
+                v["depends_on_time"] = True
+                v["first_observation"] = {"key": hits[0].get("key"), "observed": str(hits[0].get("observed"))[:300],
+                                          "timing_during_the_run": hits[0]["timing_during_the_run"]}
+                if dirty:
+                    v["runs_discarded_for_timing"] = dirty
+                return v
+            continue
+        dirty.append({"key": v.get("key"), "observed": str(v.get("observed"))[:300], "timing_during_the_run": v["timing_during_the_run"]})
+        if len(dirty) > len(RETRY_PAUSES):
+            if stats is not None:
+                stats.setdefault("discarded_for_timing", []).append(
+                    {"case": line, "invalid_runs": dirty,
+                     **({"seen_once_with_clean_timing_not_confirmed": {"key": hits[0].get("key"), "observed": str(hits[0].get("observed"))[:300]}} if hits else {})})
+            return None
+        time.sleep(RETRY_PAUSES[len(dirty) - 1])
 
 
 # =============================================================================================
@@ -1053,7 +1475,7 @@ class C18(Prop):
     lean_module = "NxsModel.Props.C18"
     level = "proof"
     rule = ("(a) random op histories (client write / set padding / read / read during an injected SerialException from "
-            "`read` or from `in_waiting` / drop_all; other end send / take; OS delivery of arbitrary prefixes in both "
+            "`read` or from `in_waiting` — both exercise the `except serial.SerialException` branch of `_read` and nothing else — / drop_all; other end send / take; OS delivery of arbitrary prefixes in both "
             "directions), every byte value one at a time in both directions, paddings 0 1 2 3 4 8 16 64 255, bursts to 8192 "
             "bytes, executed on the real SerialDevice (own constructor) over a fake pyserial port and compared item by item "
             "and in the final buffer contents with the Lean pipe model; receive-path sessions (real CommHandler._recv_thread "
@@ -1063,7 +1485,9 @@ class C18(Prop):
             "(b) extra_checks on a real pseudo-terminal, see coverage.pty")
     trusted_base = Prop.trusted_base + [
         "harness/translate_serial.py (facts of intf/serial.py, intf/iintf.py)",
-        "the fake pyserial port of harness/props/C18.py stands for pyserial's documented read/in_waiting/write semantics",
+        "the fake pyserial port of harness/props/C18.py stands for pyserial's documented read/in_waiting/write semantics "
+        "on the success path; its injected errors are `serial.SerialException`s by construction (they exercise the handler of "
+        "`_read`), not a rendering of how a real port fails",
         "NOT proved, measured on every run on a pty on this OS: pyserial 3.5 + the kernel tty layer behave as the FIFO pipe "
         "of the model (raw mode, no translation of control characters, no loss, no reordering)"]
     assumptions = [
@@ -1072,6 +1496,17 @@ class C18(Prop):
         "a pseudo-terminal stands in for a UART: baud rate, parity, framing errors and hardware flow control do not exist on it; "
         "that the port is opened 8N1 without flow control is therefore established statically (translator facts + theorem "
         "port_is_transparent_8n1 / port_settings_never_changed) and by reading the settings back from pyserial and termios",
+        "errors: the model op `readError`, theorem `read_error_empty` (`rfl`: it restates the model) and the K ops `e` / `E` are about "
+        "exactly the `except serial.SerialException` branch of `SerialDevice._read` (→ b'', nothing consumed). The property sentence does "
+        "not mention errors and nothing here says a failing port yields empty reads: with pyserial 3.5 (posix) a hang-up of the other end "
+        "of a real tty makes `in_waiting` raise OSError(EIO), a closed port TypeError; neither is a SerialException, both propagate out "
+        "of `read()` (observation outside the property; recorded, not judged: coverage.pty.hangup_probe)",
+        "the pty measurements run in real time. A verdict that rests on time (a slow read, a write time-out against a paced reader, the "
+        "outcome of a session run with nxslib's 1 s time-outs) is accepted only from a run in which the scheduling-latency monitor saw "
+        "nothing later than 0.25 s (monitor thread, paced sleeps of the helper threads, one paced burst as a whole), and only when a second "
+        "such run shows a difference too; invalid runs are repeated up to 3 times and then discarded (coverage.pty.discarded_for_timing) — "
+        "on a machine that stays overloaded the time-dependent part of the pty measurement is therefore NOT made (the fake-port correspondence, "
+        "the theorems and the byte-level pty verdicts still are)",
         "write errors of the port are not modelled (SerialDevice._write lets them propagate). The port has a finite write "
         "timeout (1 s): a single write longer than the free tty buffer plus what the line takes in that time raises "
         "SerialTimeoutException after delivering an intact prefix (theorem write_longer_than_timeout_is_cut; measured: "
@@ -1312,7 +1747,7 @@ class C18(Prop):
                 v["case"] = "pty cfg"
                 return [v]
             return []
-        stats = {"lines": 0, "kinds": {}, "rx_bytes": 0}
+        stats = {"lines": 0, "kinds": {}, "rx_bytes": 0, "discarded_for_timing": []}
         viol = []
         t0 = time.time()
         samples = []
@@ -1344,6 +1779,10 @@ class C18(Prop):
                     break
                 if len(viol) >= 3:
                     break
+        try:
+            stats["hangup_probe"] = pty_hangup_probe()
+        except Exception as e:
+            stats["hangup_probe"] = f"probe failed: {type(e).__name__}: {e}"
         ch = stats.pop("chunks", [])
         if ch:
             hist = {}
@@ -1364,7 +1803,10 @@ class C18(Prop):
                          "writes with a reader paced to <rate> bytes/s, "
                          "bytes = all 256 values each way, idle = timed reads on an idle line, session = real CommHandler against "
                          "harness/refdev.RefDevice over the pty vs over an in-memory link, bigsession = the same with device stream "
-                         "frames of the listed lengths (4097..60006 bytes) written in paced pieces")
+                         "frames of the listed lengths (4097..60006 bytes) written in paced pieces. timing = scheduling latency seen "
+                         "by the monitor during the experiments (limit 0.25 s for verdicts that depend on time); discarded_for_timing = "
+                         "experiments whose time-dependent verdict was thrown away because no run had clean timing (NOT reported, NOT measured); "
+                         "hangup_probe = what read/write do after the other end went away and on a closed port (recorded, not judged)")
         cov["pty"] = stats
         return viol
 
